@@ -81,3 +81,13 @@ func VerifStackOffsets() map[string]int16 {
 		"dstIPSetKey": offDstIPSetKey,
 	}
 }
+
+// VerifWithMaxJumpsPerProgram overrides the number of jumps after which the builder splits the
+// policy program into chained sub-programs (default: the verifier limit minus headroom), so that an
+// external harness can exercise the splitting logic with small rule sets.  It only has an effect
+// together with WithPolicyMapIndexAndStride, exactly like the default limit.
+func VerifWithMaxJumpsPerProgram(n int) Option {
+	return func(b *Builder) {
+		b.maxJumpsPerProgram = n
+	}
+}
